@@ -147,6 +147,40 @@ pub fn worker(ctx: &mut Ctx) {
             }
         }
     }
+    // (b6) landmark lengths: where size-triggered behaviour (index width, digit-reversal depth, table sizes, base tables keyed
+    //      by the exponents of 2 and 3) first changes -- every planner, f32 and (up to 2^16) f64
+    {
+        let mut marks: Vec<usize> = vec![];
+        let top = ctx.tier.pick(17u32, 20);
+        for k in 13..=top {
+            marks.push(1 << k);
+            if k <= top - 1 {
+                marks.push(3 << (k - 1));
+                marks.push(5 << (k - 2));
+            }
+        }
+        marks.extend([65537usize, 65539, 65543, 65551, 2 * 65539, 3 * 65537, 19683, 59049, 78125, 117649, 14641, 161051, 157464, 131071, 131101, 99991, 100003]);
+        if ctx.tier == Tier::Thorough {
+            marks.extend([262147usize, 524309, 1048583, 177147, 531441, 390625, 823543, 1771561, 787320, 2 * 262147]);
+        }
+        marks.sort();
+        marks.dedup();
+        for (i, &n) in marks.iter().enumerate().rev() {
+            for (pi, planner) in [Planner::Scalar, Planner::Sse, Planner::Avx].iter().enumerate() {
+                if !ctx.mine() {
+                    continue;
+                }
+                let input = InputSpec::fam(if i % 2 == 0 { "uniform" } else { "gaussish" }, n as u64);
+                ctx.exec(&Case::new("C01", "numeric", *planner, Ty::F32, DIRS[(i + pi) % 2], n).with_entry(ENTRIES[(i + pi) % 4]).with_input(input.clone()));
+                if n <= 1 << 16 || ctx.tier == Tier::Thorough && n <= 1 << 18 {
+                    ctx.exec(&Case::new("C01", "numeric", *planner, Ty::F64, DIRS[(i + pi + 1) % 2], n).with_entry(ENTRIES[(i + pi + 2) % 4]).with_input(input));
+                }
+            }
+            if ctx.done() {
+                return;
+            }
+        }
+    }
     // (b3) every prime (Rader/Bluestein decisions, primitive roots, chirps are per-prime) up to a larger bound
     {
         let fams = Families::new(primes_to);
